@@ -10,7 +10,7 @@ values, NaN only for a zero division) this gives, rule by rule, deferred value =
 Trusted: lark (LALR construction; both Lark instances parse a string to the same tree), the Transformer's bottom-up walk.
 """
 from pyvc.contract import Contract
-from pyvc.writeset import BindingTableEngine
+from pyvc.writeset import BindingTableEngine, TokenKeysEngine
 
 M = "xdeps/madxutils.py"
 BINDINGS = {"add": "operator.add", "sub": "operator.sub", "mul": "operator.mul", "div": "operator.truediv", "neg": "operator.neg",
@@ -22,5 +22,14 @@ RULES = [('NAME "=" sum', "assign_var"), ('sum "+" product', "add"), ('sum "-" p
 
 CALLBACKS = Contract(module=M, qualname="MadxEval.__init__", params={}, min_obligations=len(BINDINGS) + len(RULES),
                      extra=dict(engine=BindingTableEngine, variant="callbacks", bindings=BINDINGS, grammar=dict(name="calc_grammar", rules=RULES)))
-VARIANTS = [CALLBACKS]
+def _tok(meth, params, n, getattr_too=False):
+    return Contract(module=M, qualname=f"MadxEval.{meth}", params={}, min_obligations=n,
+                    extra=dict(engine=TokenKeysEngine, variant="token-keys", token_params=params, check_getattr=getattr_too),
+                    note="NAME tokens are used as keys through .value only (a lark Token is a str subclass with its own repr: a reference keyed "
+                         "by the token is not the path keyed by the text)")
+
+
+TOKEN_KEYS = [_tok("assign_var", ("name",), 1), _tok("var", ("name",), 1), _tok("getitem", ("name", "key"), 2),
+              _tok("getattr", ("name", "key"), 2, getattr_too=True)]
+VARIANTS = [CALLBACKS] + TOKEN_KEYS
 CONTRACTS = []
